@@ -48,7 +48,7 @@ def build(race=True):
         err = p.stderr
         log(f"[build] failed with tags={tags}: {err[-1500:]}")
         # only fall back to an untagged build when the failure is in a verif-tagged hook file
-        if tags and "verif_hooks" not in err:
+        if tags and "verif_hooks" not in err and "hooks_verif" not in err:
             break
     return None, False
 
